@@ -161,3 +161,59 @@ if __name__ == "__main__":
     f = Facts(sys.argv[1])
     for b in f.find(sys.argv[2]):
         print(pp_body(b))
+
+
+# ---------------------------------------------------------------- stable site descriptions
+
+def local_names(b):
+    m = {}
+    for d in b["debug"]:
+        if not d["place"]["proj"]:
+            m.setdefault(d["place"]["local"], d["name"])
+    return m
+
+
+def named_place(b, p):
+    names = local_names(b)
+    s = names.get(p["local"], "_tmp")
+    for e in p["proj"]:
+        k = e["k"]
+        if k == "deref":
+            s = "*" + s
+        elif k == "field":
+            s = "%s.%s" % (s, e.get("name", e["i"]))
+        elif k == "downcast":
+            s = "%s as %s" % (s, e["name"])
+        elif k in ("index", "cindex"):
+            s = s + "[..]"
+    return s
+
+
+def named_op(b, o):
+    if o["k"] in ("copy", "move"):
+        return named_place(b, o["place"])
+    if "v" in o:
+        return str(o["v"])
+    if "tyconst" in o:
+        return o["tyconst"]["s"]
+    return "const"
+
+
+def assert_site(b, t):
+    """line-number-free description of an Assert terminator"""
+    ak = t["ak"]
+    if ak == "Overflow":
+        ty = t["l"].get("ty") or t["l"]["place"]["ty"]
+        return "%s %s (%s, %s)" % (t["op"], ty["s"], named_op(b, t["l"]), named_op(b, t["r"]))
+    if ak == "BoundsCheck":
+        return "index (%s)" % named_op(b, t["index"])
+    if "x" in t:
+        return "%s (%s)" % (ak, named_op(b, t["x"]))
+    return ak
+
+
+def call_site(b, t):
+    c = t.get("callee")
+    if not c:
+        return "indirect call"
+    return "call " + c["def"]
